@@ -258,5 +258,42 @@ CHECKS["C02"] = {
     "level_note": "Interleavings inside lock-protected regions or between two statements without a hook are not reached; trusts synctest and the harness world.",
 }
 
+CHECKS["C03"] = {
+    "level": "exploration",
+    "rule": "a service with 1-3 active and 0-2 rollout targets, 0-5 requests in flight (plain / upgraded / event stream; natural ends "
+            "before the command, during the drain, at drain deadline -1 / = / +1 ms, far beyond it), a command from {redeploy, rollout "
+            "redeploy, pause, stop} with a drain timeout from a grid, 0-4 late arrivals at drawn instants around the drain, optional "
+            "resume, and in ~10% of cases one request parked between routing and claim across the command (the listed known-finding "
+            "shapes, counted); oracle: at the command's return instant no drained target has an open request, in-flight requests that "
+            "end before the deadline complete normally at their natural instant, those still running are cut off at exactly the "
+            "deadline (504 / truncated stream), upgraded connections are closed at exactly the drain start, late and later traffic "
+            "never reaches a drained target (until resume). Non-trivial = a drain with >=1 request in flight or >=1 late arrival. "
+            "Distinct by plan hash.",
+    "layers": [L("TestVF_C03", 1200, 15000)],
+    "technique": "property-based testing (rapid) on a virtual clock with exact-instant oracles from the fake targets' logs; known-finding interleavings injected through the schedule hooks",
+    "level_text": "Bounded random exploration; deadlines are compared exactly, ties accepted either way.",
+    "level_note": "Trusts synctest's clock, the in-memory network and the fake targets' logs.",
+}
+CHECKS["C17"]["layers"].append(L("TestVF_C17_Drain", 1200, 15000))
+CHECKS["C17"]["rule"] += (" TestVF_C17_Drain: C03's scenarios (redeploy / rollout redeploy / pause / stop with in-flight, upgraded and late "
+                          "requests) with the command's return instant compared exactly with max(start, latest natural end of a drained "
+                          "in-flight request capped by the drain deadline).")
+
+CHECKS["C07"] = {
+    "level": "exploration",
+    "rule": "timelines of 3-16 steps at drawn virtual instants (gaps 0/1/10/99/100/101/400 ms) over {request (plain, POST with body, "
+            "health-check GET, POST on the health path, health-path look-alike), pause(max-pause 1/100/101/500/5000 ms), repeated pause, "
+            "resume, stop(message), redeploy} on one service with 1-3 targets, through the full middleware chain; oracle: a model of "
+            "each held request (released by the first of resume -> forwarded to the set current at that instant, stop -> 503 with the "
+            "message, arrival + max-pause-at-arrival -> 504 at exactly that instant), exact end instants, POST bodies intact, "
+            "health-check GETs 200 from the proxy, no target receipt at an instant where nothing may be forwarded; in ~10% of cases a "
+            "request is parked after the pause gate while pause is issued (listed known-finding shape, counted). Non-trivial = >=2 "
+            "held requests that end differently, or a held request that survives a redeploy. Distinct by plan hash.",
+    "layers": [L("TestVF_C07", 1200, 15000)],
+    "technique": "property-based testing (rapid) on a virtual clock against a reference model of held requests; known-finding interleavings injected through the schedule hooks",
+    "level_text": "Bounded random exploration of timelines with exact-instant oracles; simultaneous events are ordered by the plan and separated by quiescence.",
+    "level_note": "Trusts synctest's clock and the harness world.",
+}
+
 ALL_IDS = ["C%02d" % i for i in range(1, 21)]
 NOT_APPLICABLE = {pid: "check not built yet (work in progress; see DESIGN.md section 8 for the order of work)" for pid in ALL_IDS if pid not in CHECKS}
